@@ -443,8 +443,17 @@ def runSQL (c : Case) : CaseOut := Id.run do
   -- the last batch is the all-sentinel one: not an observable
   let number (bs : List (List (List String))) : List (List String) :=
     ((bs.dropLast).zipIdx).flatMap fun (lines, i) => lines.map fun l => ["b", toString i] ++ l
-  let modelLines := number batchesModel
-  let specLines := number batchesSpec
+  -- cfg `gwin 1`: the batches come from the global window's running aggregators, which take every number as a float64
+  -- (window/global_window.go toAggregateValue): a whole number is reported as the float64 of the same value
+  let gwin := ((cfgVal c.cfg "gwin").bind (·.head?)) == some "1"
+  let asFloat (t : String) : String :=
+    if gwin && t.startsWith "i:" then
+      match (String.ofList (t.toList.drop 2)).toInt? with
+      | some i => floatTok (Float.ofInt i)
+      | none => t
+    else t
+  let modelLines := (number batchesModel).map fun l => l.map asFloat
+  let specLines := (number batchesSpec).map fun l => l.map asFloat
   let mut obs : List (List (List String)) := []
   let mut spec := "ok"
   let mut tags : List String := ["sql"]
@@ -459,7 +468,12 @@ def runSQL (c : Case) : CaseOut := Id.run do
     | _ => obs := obs ++ [[["bad-op"]]]
   if batchesModel.length > 2 then tags := addTag tags "several-batches"
   if !gcols.isEmpty then tags := addTag tags "grouped"
-  return { obs := obs, spec := spec, tags := tags }
+  if gwin then tags := addTag tags "global-window"
+  -- known-finding classifier: a global window builds its output aggregators with CreateBuiltinAggregator, which knows no
+  -- parameterised aggregate — nth_value(x, k) and percentile(x, p) are silently left out of the result row
+  let param := cfg.fields.any fun f => f.kind == .nthValue || f.kind == .percentile
+  let cls := if gwin && param then "global-window-parameterised-aggregate" else "none"
+  return { obs := obs, spec := spec, tags := tags, cls := cls }
 
 def run (c : Case) : CaseOut :=
   match (cfgVal c.cfg "mode").bind (·.head?) with
